@@ -501,6 +501,10 @@ def fake_http_proxy(c, a, rec):
         _echo_loop(c)
     elif host == 'no.test':
         c.sendall(b'HTTP/1.1 403 Forbidden\r\nContent-Length: 2\r\n\r\nno')
+    elif host.startswith('wordy-'):
+        # a refusal the way real proxies word it: several headers, n bytes of explanation
+        n = int(host.split('-')[1].split('.')[0])
+        c.sendall(b'HTTP/1.1 403 Forbidden\r\nServer: fake/1.0\r\nVia: 1.1 fake\r\nX-Reason: ' + b'r' * n + b'\r\nContent-Length: 2\r\nConnection: close\r\n\r\nno')
     elif host == 'garbage.test':
         c.sendall(b'\x00\x01\x02 garbage\r\n\r\n')
     elif host == 'slow.test':
